@@ -56,11 +56,15 @@ class PartialFireflyPoolEncoder(json.JSONEncoder):
           'trial': o.trial,
       }
     elif isinstance(o, vz.Trial):
+      # Infeasible trials keep their original measurement (if any), so the
+      # canonical objective may be absent.
+      metrics = o.final_measurement.metrics if o.final_measurement else {}
+      objective = (
+          metrics[OBJECTIVE_NAME].value if OBJECTIVE_NAME in metrics else None
+      )
       return {
           'parameters': o.parameters.as_dict(),
-          'objective': o.final_measurement.metrics[
-              eagle_strategy_utils.OBJECTIVE_NAME
-          ].value,
+          'objective': objective,
           'infeasibility_reason': o.infeasibility_reason,
       }
     else:
@@ -95,9 +99,10 @@ class FireflyPoolDecoder:
     # Restore FireFly objects in the pool.
     for id_, fly in obj_dict['_pool'].items():
       trial = vz.Trial(parameters=fly['trial']['parameters'])
+      objective = fly['trial'][OBJECTIVE_NAME]
       trial.complete(
           measurement=vz.Measurement(
-              metrics={'objective': fly['trial'][OBJECTIVE_NAME]}
+              metrics={} if objective is None else {'objective': objective}
           ),
           infeasibility_reason=fly['trial']['infeasibility_reason'],
       )
@@ -116,6 +121,10 @@ class FireflyPoolDecoder:
     restored_firefly_pool._pool = restored_pool
     restored_firefly_pool._last_id = int(obj_dict['_last_id'])
     restored_firefly_pool._max_fly_id = int(obj_dict['_max_fly_id'])
+    # `size` is len(pool) minus this counter; it is not part of the encoding.
+    restored_firefly_pool._infeasible_count = sum(
+        1 for fly in restored_pool.values() if fly.trial.infeasible
+    )
     return restored_firefly_pool
 
 
